@@ -15,7 +15,8 @@ RULE = (
     "pair, run through array_2d_util.resized_array_2d_from, Array2D.resized_from (unmasked, masked with both "
     "mask pad values, both storage modes) and Mask2D.resized_from (both pad values); resize_given: Hypothesis "
     "shapes up to 12 with generated real values (zeros, negatives), masks, scales, origins, pad values; "
-    "pad_trim: every (shape 1..9, odd kernel 1..7) pair with padded_before_convolution_from, "
+    "pad_trim: every (shape 1..9, odd kernel 1..7) pair (thorough: shapes 1..11, kernels 1..9; pad_trim_given: "
+    "Hypothesis values and masks) with padded_before_convolution_from, "
     "trimmed_after_convolution_from and Mask2D.trimmed_array_from; imaging_autopad: Hypothesis datasets whose "
     "mask is applied via Imaging.apply_mask / the pad_for_convolver constructor / a second apply_mask; zoom: "
     "Hypothesis masks with zoomed_around_mask, buffers 0..3. Oracle: a numpy reference embedding "
@@ -197,6 +198,10 @@ def _check_resize(case, ctx):
             mask_in = np.zeros((h, w), dtype=bool)
             r = a.resized_from(new_shape=sout)
             mpad = False
+            # the preprocess wrapper is the same operation
+            r2 = aa.preprocess.array_with_new_shape(array=a, new_shape=sout)
+            ctx.equal(np.asarray(r2.native, dtype=float), np.asarray(r.native, dtype=float),
+                      "preprocess/array_with_new_shape", "array_with_new_shape %s->%s vs resized_from" % (sin, sout))
         else:
             a = aa.Array2D(values=vals.copy(), mask=mask, store_native=store_native)
             native_in = np.where(m, 0.0, vals)
@@ -408,10 +413,12 @@ def body_pad_trim(case, ctx):
 
 def cases_pad_trim(tier):
     seed = _seed()
-    for h in range(1, 10):
-        for w in range(1, 10):
-            for kh in KERNEL_SIDES:
-                for kw in KERNEL_SIDES:
+    sides = range(1, 10) if tier == "quick" else range(1, 12)
+    ksides = KERNEL_SIDES if tier == "quick" else KERNEL_SIDES + (9,)
+    for h in sides:
+        for w in sides:
+            for kh in ksides:
+                for kw in ksides:
                     rng = random.Random("pt/%d/%d/%d/%d/%d" % (seed, h, w, kh, kw))
                     yield {"shape": [h, w], "kernel": [kh, kw], "ps": SCALES[rng.randrange(len(SCALES))],
                            "origin": ORIGINS[rng.randrange(len(ORIGINS))],
@@ -444,6 +451,8 @@ def imaging_given(draw):
     variant = draw(st.sampled_from(["apply_mask", "apply_mask", "ctor", "twice"]))
     case = {"shape": [h, w], "kernel": ker["values"], "mask": mask, "data": data, "noise": noise,
             "ps": draw(gens.pixel_scales()), "origin": draw(gens.origins()), "variant": variant}
+    if variant == "ctor":
+        case["store_native"] = draw(st.booleans())
     if variant == "twice":
         case["mask_first"] = draw(gens.masks(shape=[h, w]))
     return case
@@ -486,7 +495,10 @@ def body_imaging(case, ctx):
     d = aa.Array2D.no_mask(values=data.copy(), pixel_scales=ps, origin=origin)
     n = aa.Array2D.no_mask(values=noise.copy(), pixel_scales=ps, origin=origin)
     if variant == "ctor":
-        ds = aa.Imaging(data=aa.Array2D(values=data.copy(), mask=mask), noise_map=aa.Array2D(values=noise.copy(), mask=mask),
+        sn = bool(case.get("store_native", False))
+        ctx.label("ctor:native-stored" if sn else "ctor:slim-stored")
+        ds = aa.Imaging(data=aa.Array2D(values=data.copy(), mask=mask, store_native=sn),
+                        noise_map=aa.Array2D(values=noise.copy(), mask=mask, store_native=sn),
                         psf=psf, pad_for_convolver=True)
     else:
         im = aa.Imaging(data=d, noise_map=n, psf=psf)
